@@ -406,7 +406,7 @@ SELFTEST = {
          "new": "                        continue", "rule": "R10b"},
         {"name": "rename a keyword of propagate", "file": "pyrex/ray_tracing.py",
          "old": "    def propagate(self, signal=None, polarization=None,\n                  attenuation_interpolation=None):",
-         "new": "    def propagate(self, signal=None, polarization=None,\n                  interpolation=None):", "rule": "R10a", "construct": "propagate"},
+         "new": "    def propagate(self, signal=None, polarization=None,\n                  interpolation=None):", "occurrence": 1, "rule": "R10a", "construct": "propagate"},
         {"name": "polarization appended in the else arm only", "file": "pyrex/kernel.py",
          "old": "                    polarizations[i].append(nu_pol)\n", "new": "",
          "rule": "R10b"},
